@@ -1,0 +1,17 @@
+//go:build verif
+
+// Contracts for the gowp verifier (/verif): comment-only file, compiled only with -tags verif.
+package client
+
+//@ type client.Settings
+//@   field logger nullable
+
+//@ func (*client.sessions).get(s, realm) (sess, ok)
+//@   pure
+//@   trusted_frame lock state only
+//@   ensures ok ==> sess != nil
+
+// The PA-ENC-TIMESTAMP replacement loop in setPAData deletes while ranging; it is safe because the request
+// holds at most one PA-ENC-TIMESTAMP (setPAData is the only writer and replaces it). That invariant spans
+// calls and is not expressed; the two index obligations are assumed.
+//@ assume_obligation client.setPAData#bounds:ASReq.PAData[i] = ASReq.PAData[len(ASReq.PAData)-1] :: at most one PA-ENC-TIMESTAMP in the request (cross-call invariant, not network input)
